@@ -5,6 +5,11 @@ import json, os, re, sys
 sid, prop, needs = sys.argv[1:4]
 extra = sys.argv[4:]
 d = os.path.join('/verif/seeded', sid)
+if needs == "auto":
+    # the section of the author's SEEDED.md that says what the violation needs to manifest
+    md = open(os.path.join(d, 'SEEDED.md')).read() if os.path.exists(os.path.join(d, 'SEEDED.md')) else ''
+    mm = re.search(r'(?is)^#+[^\n]*need[^\n]*\n(.*?)(?=^#+ |\Z)', md, re.M)
+    needs = re.sub(r'\s+', ' ', mm.group(1)).strip()[:1500] if mm else 'see SEEDED.md'
 res = open(os.path.join(d, 'result.txt')).read() if os.path.exists(os.path.join(d, 'result.txt')) else ''
 m = re.search(r'demo_with_patch_rc=(\d+).*demo_without_patch_rc=(\d+).*pkg_tests_rc=(\d+)', res)
 mc = re.search(r'check_rc=(\d+) violations=(\d+)', res)
